@@ -754,7 +754,7 @@ static _Bool post_transpose_adjoint(const crs *A, const crs *T)
 }
 '''
 transpose_adjoint = Unit(
-    name='builtin_transpose_adjoint', props=['C08', 'C03', 'C02', 'C10'],
+    name='builtin_transpose_adjoint', props=['C08', 'C03', 'C10'],
     functions=['backend::transpose(const crs<V,C,P>&)'],
     desc='transpose stores math::adjoint of every value (conjugate transpose for complex / block values): uninterpreted adjoint, duplicate-free input',
     cuts=dict(crs_member_cuts(), body=Cut(
